@@ -265,7 +265,7 @@ func (w *world) datagram(depth int, inner bool) ([]byte, string) {
 		case 5, 6, 7, 8:
 			t = scmpErrTypes[r.Intn(len(scmpErrTypes))]
 			if inner && r.Chance(70) {
-				t = []slayers.SCMPType{128, 130, 128, 129}[r.Intn(4)]
+				t = []slayers.SCMPType{128, 130, 129, 131, 128, 129, 131, 1, 200}[r.Intn(9)]
 			}
 		default:
 			t = slayers.SCMPType(r.U64())
@@ -477,7 +477,7 @@ func (w *world) run(isDisp bool, data []byte, underlay netip.Addr, tag string) {
 			want, ok := w.expectedPort(v)
 			if !ok || want != target.Port() {
 				rep["expected_port"] = want
-				e.Violate("C44/wrong-port", "forwarded to a port that is not the destination port / identifier / quoted source port", rep)
+				e.Violate("C44/wrong-port", "forwarded to a port that is not the destination port / reply identifier / quoted source port / quoted request identifier (an error quoting an echo/traceroute reply or another SCMP type must be dropped)", rep)
 			}
 		}
 	case "reply":
@@ -568,11 +568,23 @@ func (w *world) expectedPort(v view) (uint16, bool) {
 	if u := q.Layer(slayers.LayerTypeSCIONUDP); u != nil {
 		return u.(*slayers.UDP).SrcPort, u.(*slayers.UDP).SrcPort != 0
 	}
-	if l := q.Layer(slayers.LayerTypeSCMPEcho); l != nil {
-		return l.(*slayers.SCMPEcho).Identifier, true
+	// A quoted SCMP packet names a local application only if it is something this host SENT: an
+	// echo or traceroute REQUEST, whose identifier the local application chose. The identifier of
+	// a quoted reply (or anything else) was chosen by the remote side: an error about it must be
+	// dropped, not relayed to a remotely chosen port.
+	qs := q.Layer(slayers.LayerTypeSCMP)
+	if qs == nil {
+		return 0, false
 	}
-	if l := q.Layer(slayers.LayerTypeSCMPTraceroute); l != nil {
-		return l.(*slayers.SCMPTraceroute).Identifier, true
+	switch qs.(*slayers.SCMP).TypeCode.Type() {
+	case slayers.SCMPTypeEchoRequest:
+		if l := q.Layer(slayers.LayerTypeSCMPEcho); l != nil {
+			return l.(*slayers.SCMPEcho).Identifier, true
+		}
+	case slayers.SCMPTypeTracerouteRequest:
+		if l := q.Layer(slayers.LayerTypeSCMPTraceroute); l != nil {
+			return l.(*slayers.SCMPTraceroute).Identifier, true
+		}
 	}
 	return 0, false
 }
